@@ -3,6 +3,7 @@ package explore
 
 import (
 	"fmt"
+	"os"
 	"sort"
 	"strings"
 	"time"
@@ -141,6 +142,9 @@ func Sched(o SchedOpts) SchedStats {
 }
 
 func schedOnce(o SchedOpts) SchedStats {
+	if os.Getenv("VERIF_NOCACHE") != "" {
+		o.Cache = false // debugging aid: plain stateless search
+	}
 	st := SchedStats{Name: o.Name, Bound: o.Bound, Exhaustive: true, Outcomes: map[string]int{}}
 	visited := map[uint64]int8{}
 	stack := []item{{}}
